@@ -39,6 +39,23 @@ THEOREMS = [
     "C04_patched_still_unsound",
     "C04_patched_literal_fixed",
     "C04_litclean_needed",
+    "C04_gate_is_receiver_rule",
+    "C04_gate_consults",
+    "C04_gate_waived",
+    "C04_gate_sender_flag_irrelevant",
+    "C04_gate_initiator_irrelevant",
+    "C04_gate_sound",
+    "C04_gate_sound_partial",
+    "C04_rule_sound_iff",
+    "C04_tree_rule_sound",
+    "C04_both_flags_rule_unsound",
+    "C04_initiator_rule_unsound",
+    "C04_history_checked",
+    "C04_history_sound",
+    "C04_push_through_accepted",
+    "C04_now_checked_without_activation",
+    "C04_activation_not_rechecked",
+    "C04_activation_value_refused",
 ]
 RULE = (
     "ordered pairs of REAL hint objects from the grammar cls | None | X|Y | Union/Optional | Literal | Annotated | "
@@ -118,6 +135,10 @@ FLOATS = {0: 1.0, 1: 2.5}
 
 
 class Unsupported(Exception):
+    pass
+
+
+class HarnessBug(Exception):
     pass
 
 
@@ -657,6 +678,84 @@ def gen_cases(rng, tier):
         if rng.random() < 0.08:
             h, o = o, h
         yield _pair(h, o, rng, "restricted" if restricted else "full")
+    yield from gen_gate_cases(rng, tier)
+
+
+# hand-picked pairs for the systematic part of the gate cases: (sending hint, receiving hint)
+_I, _S, _B, _F = ["c", "int"], ["c", "str"], ["c", "bool"], ["c", "float"]
+GATE_BAD = [(_S, _I), (_I, _B), (["un", [_I, _S]], _I), (["li", _S], ["li", _I]), (_F, _I), (["c", "A"], ["c", "B"]),
+            (["lit", [["s", "a"]]], ["lit", [["s", "b"]]]), (["di", _S, _I], ["di", _S, _S]), (_I, ["c", "NoneType"]),
+            (["tv", _S], ["tf", [_S]]), (["c", "object"], _S), (["an", _S], ["an", _I])]
+GATE_GOOD = [(_B, _I), (_I, ["un", [_I, _S]]), (["li", _B], ["li", _I]), (["c", "C"], ["c", "A"]),
+             (["lit", [["s", "a"]]], ["lit", [["s", "a"], ["s", "b"]]]), (["tv", _B], ["c", "tuple"]), (_I, ["an", _I]),
+             (_S, _S), (["di", _S, _B], ["di", _S, _I]), (_I, ["uo", [_I, ["c", "NoneType"]]]), (_S, ["c", "object"])]
+
+
+def _members(t, n=3):
+    return pool(t)[:n] if t is not None else GLOBAL_POOL[:n]
+
+
+def _gate_case(rng, h, o, via, ss, sr, mode, lax=None, pre="auto", post="auto"):
+    value_link = GATE_VIAS[via] in ("ri", "ro")
+    cand = _members(h, 3) + _members(o, 2) + GLOBAL_POOL[:2]
+    if pre == "auto":
+        pre = rng.choice(cand) if rng.random() < (0.6 if value_link else 0.25) else None
+    if post == "auto":
+        post = []
+        for _ in range(rng.choice([0, 1, 2, 3, 4, 5])):
+            k = rng.random()
+            if k < 0.45:
+                post.append(["push", rng.choice(cand)])
+            elif k < 0.75:
+                post.append(["strict", "r", rng.choice([0, 1]), rng.choice(LAX_HOW[:3])])
+            elif k < 0.88:
+                post.append(["strict", "s", rng.choice([0, 1]), rng.choice(LAX_HOW[:3])])
+            elif via in REPEATABLE:
+                post.append(["relink"])
+    return {"kind": "gate", "h": h, "o": o, "via": via, "ss": ss, "sr": sr, "lax": lax or rng.choice(LAX_HOW),
+            "pre": pre, "post": post, "mode": mode}
+
+
+def gen_gate_cases(rng, tier):
+    """links between REAL nodes: every API path x sender flag x receiver flag x hint presence x how the flag was
+    switched x a value held by the sender x what happens afterwards (toggles, values pushed, link asked again)"""
+    vias = list(GATE_VIAS)
+    quick = tier == "quick"
+    # systematic: each via x flags with an incompatible and a compatible pair
+    for via in vias:
+        for ss in (0, 1):
+            for sr in (0, 1):
+                for table in (GATE_BAD, GATE_GOOD):
+                    pairs = [rng.choice(table)] if quick else table
+                    for h, o in pairs:
+                        for lax in ([None] if quick else LAX_HOW):
+                            yield _gate_case(rng, h, o, via, ss, sr, "gate-systematic", lax=lax)
+    # hint presence
+    for via in vias:
+        for ph, po in ((0, 1), (1, 0), (0, 0)):
+            for ss, sr in ([(rng.choice([0, 1]), rng.choice([0, 1]))] if quick else [(0, 0), (0, 1), (1, 0), (1, 1)]):
+                h, o = rng.choice(GATE_BAD)
+                yield _gate_case(rng, h if ph else None, o if po else None, via, ss, sr, "gate-presence")
+    # random: hints from the pair generators
+    E1 = enum_depth1()
+    for i in range(450 if quick else 7000):
+        restricted = i % 2 == 0
+        d = rng.choice([0, 1, 1, 2])
+        h = gen_hint(rng, d, restricted) if rng.random() < 0.7 else rng.choice(E1)
+        k = rng.random()
+        if k < 0.45:
+            o = generalise(rng, h, restricted and _restricted(h, h))
+        elif k < 0.6:
+            o = h
+        else:
+            o = gen_hint(rng, d, restricted) if rng.random() < 0.7 else rng.choice(E1)
+        if rng.random() < 0.1:
+            h, o = o, h
+        if h[0] == "N" or o[0] == "N":
+            continue
+        ss = 0 if rng.random() < 0.45 else 1
+        sr = 0 if rng.random() < 0.3 else 1
+        yield _gate_case(rng, h, o, rng.choice(vias), ss, sr, "gate-random")
 
 
 def corpus():
@@ -696,6 +795,23 @@ def corpus():
     yield {**P(["un", [["li", I], S]], ["uo", [["li", I], S]]), "vals": [["s", "a"], ["i", 1], ["l", [["i", 1]]]]}
     yield {**P(["un", [S, ["li", I]]], ["uo", [S, ["li", F]]]), "vals": [["s", "a"], ["i", 1], ["l", [["i", 1]]]]}
     yield {**P(["uo", [F, ["lit", [["i", 1]]]]], ["uo", [F, I]]), "vals": [["i", 1], ["i", 2], ["b", True]]}
+    # the acceptance gate on real nodes: the upstream node alone has switched its hint checking off, the downstream
+    # one still insists (str -> int must be refused from either side, through every API, as value link and in macros)
+    G = lambda via, ss, sr, h=S, o=I, **kw: {"kind": "gate", "h": h, "o": o, "via": via, "ss": ss, "sr": sr,  # noqa: E731
+                                             "lax": kw.pop("lax", "node"), "pre": kw.pop("pre", None),
+                                             "post": kw.pop("post", []), "mode": "corpus"}
+    for via in GATE_VIAS:
+        yield G(via, 0, 1, post=[["push", ["s", "a"]]])
+    yield G("ri", 0, 1, pre=["s", "a"])
+    yield G("mi", 0, 1, pre=["s", "a"], lax="chan")
+    yield G("rep_mi", 0, 1, pre=["s", "a"], lax="panel")
+    yield G("ic", 1, 0, post=[["push", ["s", "a"]], ["strict", "r", 1, "node"], ["push", ["s", "a"]], ["relink"]])
+    yield G("oc", 1, 1, h=["c", "bool"], o=I, post=[["strict", "r", 0, "chan"], ["push", ["b", True]],
+                                                     ["strict", "r", 1, "panel"], ["push", ["b", True]], ["relink"]])
+    yield G("ro", 0, 0, lax="parent", pre=["s", "a"], post=[["strict", "r", 1, "chan"], ["relink"], ["push", ["s", "b"]]])
+    yield G("mo", 1, 1, h=["an", F], o=F, pre=["i", 1])
+    yield G("kw", 0, 1, h=None, o=I, post=[["push", ["s", "a"]]])
+    yield G("io", 0, 1, h=S, o=None, post=[["push", ["i", 1]]])
 
 
 # ----------------------------------------------------------------------------- implementation side
@@ -711,10 +827,10 @@ def _depth_now() -> int:
     return n
 
 
-def _guarded(fn):
+def _guarded(fn, margin=160):
     """run fn under a lowered recursion limit; 'REC' for RecursionError, 'EXC:<name>' otherwise"""
     old = sys.getrecursionlimit()
-    sys.setrecursionlimit(_depth_now() + 160)
+    sys.setrecursionlimit(_depth_now() + margin)
     try:
         return fn()
     except RecursionError:
@@ -816,7 +932,67 @@ def _receiver(hself, hpartner, strict):
     return _guarded(go)
 
 
+RAW_VIAS = ("oc", "ic", "ri", "ro")
+
+
+def _gate_raw(via, hs, hr, ss, sr):
+    """the acceptance gate on bare channels: `hs`/`hr` real hints of the sending / receiving channel (None = no
+    hint), `ss`/`sr` their strict_hints, `via` who asks"""
+    from pyiron_workflow.channels import ChannelConnectionError, InputData, OutputData
+
+    if via in ("oc", "ic"):
+        s = OutputData("s", _Owner(), type_hint=hs, strict_hints=bool(ss))
+        r = InputData("r", _Owner(), type_hint=hr, strict_hints=bool(sr))
+    else:
+        cls = InputData if via == "ri" else OutputData
+        s = cls("s", _Owner(), type_hint=hs, strict_hints=bool(ss))
+        r = cls("r", _Owner(), type_hint=hr, strict_hints=bool(sr))
+
+    def linked():
+        if via in ("oc", "ic"):
+            a, b = r in s.connections, s in r.connections
+            return "half" if a != b else a
+        return s.value_receiver is r
+
+    def go():
+        try:
+            if via == "oc":
+                s.connect(r)
+            elif via == "ic":
+                r.connect(s)
+            else:
+                s.value_receiver = r
+        except ChannelConnectionError:
+            return "refused"
+        except ValueError:
+            return "refused" if via in ("ri", "ro") else "EXC:ValueError"
+        return "ok" if linked() is True else "EXC:not-linked"
+
+    res = _guarded(go)
+    if res != "ok" and linked() is not False:
+        res = str(res) + "+dangling"
+    return res
+
+
+def _gate_matrix(H, O):
+    """every (initiator, sender flag, receiver flag) for the both-hinted pair + the three other hint presences"""
+    rows = []
+    for via in RAW_VIAS:
+        for ss in (0, 1):
+            for sr in (0, 1):
+                rows.append([via, 1, 1, ss, sr])
+    for via in RAW_VIAS:
+        for ph, po in ((0, 1), (1, 0), (0, 0)):
+            rows.append([via, ph, po, 1, 1])
+    for row in rows:
+        via, ph, po, ss, sr = row
+        row.append(_gate_raw(via, H if ph else None, O if po else None, ss, sr))
+    return rows
+
+
 def run_impl(case):
+    if case["kind"] == "gate":
+        return run_gate(case)
     if case["kind"] == "malformed":
         return {"obs": ["bad-op"] * len(case["lines"]), "stats": {"malformed": 1}, "skip": False, "variant": variant()}
     try:
@@ -843,11 +1019,13 @@ def run_impl(case):
     conn2 = _connect(H, O, 1, flip=True)
     conn_u = _connect(None, O, 1, flip=False)
     recv = _receiver(H, O, strict)
+    matrix = _gate_matrix(H, O)
     adm = []
     for av, real in vals:
         adm.append({"v": av, "h": _vv(real, H), "o": _vv(real, O), "tg_o": _tg_only(real, O)})
     obs = [f"cmp {r_ho}", f"cmp {r_hh}", f"cmp {r_oo}", f"conn {conn}", f"conn {conn2}", f"conn {conn_u}",
            f"recv {recv}"]
+    obs += [f"gate {row[5]}" for row in matrix]
     for a in adm:
         obs.append(f"adm {a['h']}")
         obs.append(f"adm {a['o']}")
@@ -857,13 +1035,529 @@ def run_impl(case):
              f"kind:{th[0]}>{to[0]}": 1, f"depth:{max(depth(th), depth(to))}": 1}
     if r_ho == "T":
         stats["accepted-with-admitted-witness"] = int(any(a["h"] == "T" for a in adm))
+    for row in matrix:
+        if row[1] and row[2]:
+            stats[f"gate:{row[0]}:s{row[3]}r{row[4]}:{row[5]}"] = 1
     return {"obs": obs, "skip": False, "th": th, "to": to, "strict": strict, "cmp": [r_ho, r_hh, r_oo],
-            "conn": [conn, conn2, conn_u], "recv": recv, "adm": adm, "stats": stats, "variant": variant()}
+            "conn": [conn, conn2, conn_u], "recv": recv, "matrix": matrix, "adm": adm, "stats": stats,
+            "variant": variant()}
 
 
 def nontrivial(case, r):
-    return (not r.get("skip")) and case["kind"] == "pair" and r["cmp"][0] in ("T", "F") and \
-        (r["th"][0] != "c" or r["to"][0] != "c")
+    if r.get("skip"):
+        return False
+    if case["kind"] == "gate":
+        return r["link"] in ("ok", "refused", "receiver-rejects") and r["th"] is not None and r["to"] is not None
+    return case["kind"] == "pair" and r["cmp"][0] in ("T", "F") and (r["th"][0] != "c" or r["to"][0] != "c")
+
+
+# ----------------------------------------------------------------------------- gate cases: REAL nodes, API paths
+
+# via -> (mechanism of the model, kind); the SENDER is the output / the channel whose value_receiver is set
+GATE_VIAS = {
+    "oc": "oc",       # a.outputs.y.connect(b.inputs.x)
+    "ic": "ic",       # b.inputs.x.connect(a.outputs.y)
+    "io": "ic",       # b.inputs.x = a.outputs.y            (IO panel assignment)
+    "ion": "ic",      # b.inputs.x = a                      (a node standing for its single output)
+    "kw": "ic",       # b.set_input_values(x=a.outputs.y)   (what node(...) / node.run(...) keywords do)
+    "run": "ic",      # b.run(x=a.outputs.y) / b(x=...)     (call keyword; whether the run itself then succeeds is not observed)
+    "ctor": "ic",     # B(x=a.outputs.y)                    (constructor keyword)
+    "cc_in": "ic",    # b.inputs.x.copy_connections(p.inputs.x), p an unhinted sibling connected to a
+    "cc_out": "oc",   # a.outputs.y.copy_connections(p.outputs.y), p an unhinted sibling connected to b
+    "rep_r": "ic",    # wf.replace_child(p, b): the replacement's input re-makes p's connection to a
+    "rep_s": "oc",    # wf.replace_child(p, a): the replacement's output re-makes p's connection to b
+    "ri": "ri",       # a.inputs.x.value_receiver = b.inputs.x
+    "ro": "ro",       # a.outputs.y.value_receiver = b.outputs.y
+    "mi": "ri",       # macro construction: macro input -> child input
+    "mo": "ro",       # macro construction: child output -> macro output
+    "rep_mi": "ri",   # macro.replace_child(p, b): macro input re-linked to the replacement's input
+    "rep_mo": "ro",   # macro.replace_child(p, a): the replacement's output re-linked to the macro output
+}
+REPEATABLE = ("oc", "ic", "io", "ion", "kw", "ri", "ro")
+IN_WORKFLOW = ("oc", "ic", "io", "ion", "kw", "run", "ri", "ro", "cc_in", "cc_out")
+LAX_HOW = ("chan", "node", "panel", "parent")
+_CNT = [0]
+
+
+def _annotate(f, name, hin, hout):
+    f.__name__ = f.__qualname__ = name
+    f.__module__ = __name__
+    ann = {}
+    if hin is not None:
+        ann["x"] = hin
+    if hout is not None:
+        ann["return"] = hout
+    f.__annotations__ = ann
+    return f
+
+
+def _mk_fn(hin, hout):
+    """a function node class x -> y carrying the given real hints (None = unhinted)"""
+    from pyiron_workflow.nodes.function import as_function_node
+
+    _CNT[0] += 1
+
+    def f(x):
+        y = x
+        return y
+
+    return as_function_node("y", validate_output_labels=False)(_annotate(f, f"C04F{_CNT[0]}", hin, hout))
+
+
+def _mk_macro(hin, hout, child_cls, setup):
+    """a macro class x -> child -> y; `setup(macro)` runs inside the graph creator after the child exists"""
+    from pyiron_workflow.nodes.macro import as_macro_node
+
+    _CNT[0] += 1
+
+    def m(self, x):
+        self.child = child_cls()
+        setup(self)
+        self.child.inputs.x = x
+        return self.child.outputs.y
+
+    return as_macro_node("y", validate_output_labels=False)(_annotate(m, f"C04M{_CNT[0]}", hin, hout))
+
+
+def _set_strict(ch, b, how):
+    """switch strict_hints of one channel through the channel, its node, its IO panel"""
+    from pyiron_workflow.nodes.composite import Composite
+
+    owner = ch.owner
+    if how == "node" and not isinstance(owner, Composite):
+        (owner.activate_strict_hints if b else owner.deactivate_strict_hints)()
+    elif how in ("panel", "node"):
+        panel = owner.inputs if any(c is ch for c in owner.inputs) else owner.outputs
+        (panel.activate_strict_hints if b else panel.deactivate_strict_hints)()
+    else:
+        (ch.activate_strict_hints if b else ch.deactivate_strict_hints)()
+
+
+def _exc_outcome(e, value_link):
+    from pyiron_workflow.channels import ChannelConnectionError
+
+    chain, x = [], e
+    while x is not None and len(chain) < 6:
+        chain.append(x)
+        x = x.__cause__
+    if any(isinstance(x, RecursionError) for x in chain):
+        return "REC"
+    if any(isinstance(x, ChannelConnectionError) for x in chain):
+        return "refused"
+    if value_link and isinstance(e, TypeError):
+        return "receiver-rejects"
+    if value_link and type(e) is ValueError:
+        return "refused"
+    return f"EXC:{type(e).__name__}"
+
+
+class _Scene:
+    """the two channels of a gate case on real nodes"""
+
+    def __init__(self, case, H, O):
+        from pyiron_workflow import Workflow
+
+        self.case, self.H, self.O = case, H, O
+        self.via = case["via"]
+        self.mech = GATE_VIAS[self.via]
+        self.value_link = self.mech in ("ri", "ro")
+        self.how = case.get("lax", "chan")
+        self.wf = Workflow("w", autoload=None)
+        self.Snd, self.Rcv, self.Plain = _mk_fn(H, H), _mk_fn(O, O), _mk_fn(None, None)
+        self.s = self.r = None
+        self.obs = []
+
+    # -- flags and the sender's value before the link exists
+    def _prepare(self, s, r, ss, sr, pre):
+        how = self.how
+        if how == "parent":
+            if self.via in IN_WORKFLOW and (not ss or not sr):
+                self.wf.deactivate_strict_hints()
+                for ch, b in ((s, ss), (r, sr)):
+                    if b and ch is not None:
+                        ch.owner.activate_strict_hints()
+                s_done = r_done = True
+            else:
+                how, s_done, r_done = "node", False, False
+        else:
+            s_done = r_done = False
+        if s is not None and not ss and not s_done:
+            _set_strict(s, False, how)
+        if r is not None and not sr and not r_done:
+            _set_strict(r, False, how)
+        for ch, b in ((s, ss), (r, sr)):
+            if ch is not None and bool(ch.strict_hints) != bool(b):
+                raise HarnessBug(f"could not set strict_hints={b} via {how}")
+        if pre is not None and s is not None:  # pre = (term, real value); the real value may be None
+            self.obs.append("setval " + self._setval(s, pre[1]))
+
+    @staticmethod
+    def _setval(ch, v):
+        try:
+            ch.value = v
+        except TypeError:
+            return "rejected"
+        except Exception as e:  # noqa: BLE001
+            return f"EXC:{type(e).__name__}"
+        return "ok"
+
+    def linked(self):
+        s, r = self.s, self.r
+        if s is None or r is None:
+            return False
+        if self.value_link:
+            return s.value_receiver is r
+        a, b = any(c is r for c in s.connections), any(c is s for c in r.connections)
+        return "half" if a != b else a
+
+    # -- the link attempt
+    def link(self, ss, sr, pre):
+        via, wf = self.via, self.wf
+        act = None
+        if via in ("oc", "ic", "io", "ion", "kw", "run", "cc_in", "cc_out", "ri", "ro"):
+            wf.a, wf.b = self.Snd(), self.Rcv()
+            if via in ("ri",):
+                self.s, self.r = wf.a.inputs.x, wf.b.inputs.x
+            elif via == "ro":
+                self.s, self.r = wf.a.outputs.y, wf.b.outputs.y
+            else:
+                self.s, self.r = wf.a.outputs.y, wf.b.inputs.x
+            if via == "cc_in":
+                wf.p = self.Plain()
+                wf.p.inputs.x.connect(self.s)
+            elif via == "cc_out":
+                wf.p = self.Plain()
+                self.r.connect(wf.p.outputs.y)
+            self._prepare(self.s, self.r, ss, sr, pre)
+            s, r = self.s, self.r
+
+            def act_run():
+                try:
+                    wf.b.run(x=s)
+                except RecursionError:
+                    raise
+                except Exception:  # noqa: BLE001
+                    if self.linked() is not True:
+                        raise  # refused before anything ran; otherwise the link exists and the run is not our business
+
+            act = {
+                "run": act_run,
+                "oc": lambda: s.connect(r),
+                "ic": lambda: r.connect(s),
+                "io": lambda: setattr(wf.b.inputs, "x", s),
+                "ion": lambda: setattr(wf.b.inputs, "x", wf.a),
+                "kw": lambda: wf.b.set_input_values(x=s),
+                "cc_in": lambda: r.copy_connections(wf.p.inputs.x),
+                "cc_out": lambda: s.copy_connections(wf.p.outputs.y),
+                "ri": lambda: setattr(s, "value_receiver", r),
+                "ro": lambda: setattr(s, "value_receiver", r),
+            }[via]
+        elif via == "ctor":
+            wf.a = self.Snd()
+            self.s = wf.a.outputs.y
+            self._prepare(self.s, None, ss, 1, pre)
+
+            def act():
+                wf.b = self.Rcv(x=self.s)
+                self.r = wf.b.inputs.x
+        elif via == "rep_r":
+            wf.a, wf.p = self.Snd(), self.Plain()
+            wf.p.inputs.x.connect(wf.a.outputs.y)
+            b = self.Rcv()
+            self.s, self.r = wf.a.outputs.y, b.inputs.x
+            self._prepare(self.s, self.r, ss, sr, pre)
+            act = lambda: wf.replace_child(wf.p, b)  # noqa: E731
+        elif via == "rep_s":
+            wf.p, wf.b = self.Plain(), self.Rcv()
+            wf.b.inputs.x.connect(wf.p.outputs.y)
+            a = self.Snd()
+            self.s, self.r = a.outputs.y, wf.b.inputs.x
+            self._prepare(self.s, self.r, ss, sr, pre)
+            act = lambda: wf.replace_child(wf.p, a)  # noqa: E731
+        elif via in ("mi", "mo"):
+            def setup(macro):
+                if via == "mi":
+                    self.s, self.r = macro.inputs.x, macro.child.inputs.x
+                else:
+                    self.s, self.r = macro.child.outputs.y, macro.outputs.y
+                self._prepare(self.s, self.r, ss, sr, pre)
+
+            M = _mk_macro(self.H if via == "mi" else None, self.O if via == "mo" else None,
+                          self.Rcv if via == "mi" else self.Snd, setup)
+
+            def act():
+                self.s = self.r = None
+                wf.m = M()
+        elif via in ("rep_mi", "rep_mo"):
+            M = _mk_macro(self.H if via == "rep_mi" else None, self.O if via == "rep_mo" else None, self.Plain,
+                          lambda macro: None)
+            wf.m = M()
+            new = self.Rcv() if via == "rep_mi" else self.Snd()
+            if via == "rep_mi":
+                self.s, self.r = wf.m.inputs.x, new.inputs.x
+            else:
+                self.s, self.r = new.outputs.y, wf.m.outputs.y
+            self._prepare(self.s, self.r, ss, sr, pre)
+            act = lambda: wf.m.replace_child(wf.m.child, new)  # noqa: E731
+        else:
+            raise Unsupported(via)
+        self._act = act
+        return self._attempt()
+
+    def _attempt(self):
+        def go():
+            try:
+                self._act()
+            except Exception as e:  # noqa: BLE001
+                return _exc_outcome(e, self.value_link)
+            return "ok"
+
+        res = _guarded(go, margin=500)
+        st = self.linked()
+        if res == "ok" and st is not True:
+            res = "EXC:not-linked"
+        elif res != "ok" and st is not False and not self._was_linked:
+            res = str(res) + "+dangling"
+        return res
+
+    _was_linked = False
+
+    def relink(self):
+        self._was_linked = self.linked() is True
+        try:
+            return self._attempt()
+        finally:
+            self._was_linked = False
+
+    def push(self, v):
+        if self.linked() is not True:
+            return "no-link"
+        s, r = self.s, self.r
+        try:
+            s.value = v
+        except TypeError as e:
+            mine = str(e).startswith(f"The channel {s.full_label} cannot take")
+            return "sender-rejects" if (mine or not self.value_link) else "receiver-rejects"
+        except Exception as e:  # noqa: BLE001
+            return f"EXC:{type(e).__name__}"
+        if not self.value_link:
+            try:
+                r.fetch()
+            except TypeError:
+                return "receiver-rejects"
+            except Exception as e:  # noqa: BLE001
+                return f"EXC:{type(e).__name__}"
+        try:
+            same = r.value is v or r.value == v
+        except Exception:  # noqa: BLE001
+            same = True
+        return "ok" if same else "EXC:value-not-delivered"
+
+    def links_line(self):
+        st = self.linked()
+        if st is True:
+            return f"links {self.mech}:0>1"
+        return "links" if st is False else "links EXC:half-connection"
+
+
+def _guarded_build(t):
+    return None if t is None else build(t)
+
+
+def run_gate(case):
+    try:
+        H, O = _guarded_build(case.get("h")), _guarded_build(case.get("o"))
+        th = None if H is None else abstract(H)
+        to = None if O is None else abstract(O)
+    except (Unsupported, TypeError) as e:
+        return {"obs": [], "skip": True, "why": repr(e), "stats": {"skipped-unbuildable": 1}}
+    via = case["via"]
+    ss, sr = int(case.get("ss", 1)), int(case.get("sr", 1))
+    if via == "ctor":
+        sr = 1  # a node is born strict
+    # witness values: (model term, real value); sets keep their real iteration order
+    vals, seen = [], set()
+
+    def real_of(v):
+        try:
+            real = build_val(v)
+            return abstract_val(real), real
+        except (Unsupported, TypeError, KeyError):
+            return None
+
+    for v in list(case.get("vals", [])) + (pool(th) if th else []) + (pool(to) if to else []) + GLOBAL_POOL[:3]:
+        rv = real_of(v)
+        if rv is not None and repr(rv[0]) not in seen:
+            seen.add(repr(rv[0]))
+            vals.append(rv)
+    vals = vals[:16 + len(case.get("vals", []))]
+    pre = real_of(case["pre"]) if case.get("pre") is not None else None
+    if pre is not None and via in ("mi",) and H is not None and _vv(pre[1], H) != "T":
+        pre = None  # the macro's hidden UserInput hop (same hint, strict) would refuse it first
+    sc = _Scene(case, H, O)
+    trace = []  # structured twin of obs for the oracle
+    try:
+        link = sc.link(ss, sr, pre)
+    except (HarnessBug, Unsupported):
+        raise
+    except Exception as e:  # noqa: BLE001  the scenery itself (an unhinted sibling, a macro with h -> h links) was refused
+        link = "EXC:setup:" + _exc_outcome(e, False).replace("EXC:", "")
+    pre_res = sc.obs[0].split(" ", 1)[1] if sc.obs else None
+    obs = list(sc.obs) + [f"link {link}", sc.links_line()]
+    flags = {"s": ss, "r": sr}
+    trace.append({"op": "link", "res": link, "ss": ss, "sr": sr, "linked": sc.linked()})
+    post_eff = []
+    for op in case.get("post", []):
+        if op[0] == "strict":
+            side, b = op[1], int(op[2])
+            ch = sc.s if side == "s" else sc.r
+            if ch is None:
+                continue
+            how = op[3] if len(op) > 3 else "chan"
+            if how == "parent":
+                how = "node"
+            if how == "node" and sc.s is not None and sc.r is not None and sc.s.owner is sc.r.owner:
+                how = "chan"
+            _set_strict(ch, bool(b), how)
+            other = sc.r if side == "s" else sc.s
+            if other is not None and bool(other.strict_hints) != bool(flags["r" if side == "s" else "s"]):
+                other.strict_hints = bool(flags["r" if side == "s" else "s"])  # node-level switch hit both: undo
+            flags[side] = b
+            post_eff.append(["strict", side, b])
+            trace.append({"op": "strict", "side": side, "b": b})
+        elif op[0] == "push":
+            rv = real_of(op[1])
+            if rv is None:
+                continue
+            res = sc.push(rv[1])
+            obs.append(f"push {res}")
+            post_eff.append(["push", rv[0]])
+            trace.append({"op": "push", "v": rv[0], "res": res, "h": None if H is None else _vv(rv[1], H),
+                          "o": None if O is None else _vv(rv[1], O), "ss": flags["s"], "sr": flags["r"]})
+        elif op[0] == "relink" and via in REPEATABLE:
+            res = sc.relink()
+            obs.append(f"link {res}")
+            post_eff.append(["relink"])
+            trace.append({"op": "link", "res": res, "ss": flags["s"], "sr": flags["r"], "linked": sc.linked(),
+                          "again": True})
+    obs.append(sc.links_line())
+    adm = []
+    for av, real in vals:
+        a = {"v": av, "h": None if H is None else _vv(real, H), "o": None if O is None else _vv(real, O),
+             "tg_o": None if O is None else _tg_only(real, O)}
+        adm.append(a)
+        if a["h"] is not None:
+            obs.append(f"adm {a['h']}")
+        if a["o"] is not None:
+            obs.append(f"adm {a['o']}")
+    pre_adm = None
+    if pre is not None:
+        pre_adm = {"v": pre[0], "h": None if H is None else _vv(pre[1], H), "o": None if O is None else _vv(pre[1], O),
+                   "tg_o": None if O is None else _tg_only(pre[1], O)}
+    stats = {f"gate-via:{via}": 1, f"gate-flags:s{ss}r{sr}": 1, f"gate-hinted:{int(H is not None)}{int(O is not None)}": 1,
+             f"gate-link:{link}": 1, f"gate-lax:{case.get('lax', 'chan')}": 1, "mode:gate": 1,
+             "variant:" + "".join(map(str, variant())): 1, "gate-post-ops": len(post_eff),
+             "gate-with-pre-value": int(pre is not None)}
+    if H is not None and O is not None and sr and link == "ok":
+        stats[f"gate-accepted-by-strict-receiver:sender-strict={ss}"] = 1
+    if H is not None and O is not None and sr and link == "refused":
+        stats[f"gate-refused-by-strict-receiver:sender-strict={ss}"] = 1
+    for t in trace:
+        if t["op"] == "push":
+            stats[f"gate-push:{t['res']}"] = stats.get(f"gate-push:{t['res']}", 0) + 1
+    return {"obs": obs, "skip": False, "th": th, "to": to, "ss": ss, "sr": sr, "via": via, "mech": GATE_VIAS[via],
+            "pre": None if pre is None else pre[0], "pre_res": pre_res, "pre_adm": pre_adm, "link": link,
+            "post": post_eff, "trace": trace, "adm": adm, "stats": stats, "variant": variant()}
+
+
+def gate_model_input(case, impl):
+    th, to = impl["th"], impl["to"]
+    h = " ".join(tok(th)) if th else "-"
+    o = " ".join(tok(to)) if to else "-"
+    mech = impl["mech"]
+    lines = ["cfg " + " ".join(map(str, impl["variant"])), f"chan 0 {h} 1", f"chan 1 {o} 1"]
+    if not impl["ss"]:
+        lines.append("strict 0 0")
+    if not impl["sr"]:
+        lines.append("strict 1 0")
+    if impl["pre"] is not None:
+        lines.append("setval 0 " + " ".join(tok_val(impl["pre"])))
+    lines += [f"link {mech} 0 1", "links"]
+    for op in impl["post"]:
+        if op[0] == "strict":
+            lines.append(f"strict {0 if op[1] == 's' else 1} {op[2]}")
+        elif op[0] == "push":
+            lines.append(f"push {mech} 0 1 " + " ".join(tok_val(op[1])))
+        elif op[0] == "relink":
+            lines.append(f"link {mech} 0 1")
+    lines.append("links")
+    for a in impl["adm"]:
+        v = " ".join(tok_val(a["v"]))
+        if th:
+            lines.append(f"adm {h} {v}")
+        if to:
+            lines.append(f"adm {o} {v}")
+    return lines
+
+
+def gate_oracle(case, r):
+    """C04 on a history: whenever a link between two hinted channels is accepted while the RECEIVING side checks
+    its hints, every value the sending hint admits is admitted by the receiving hint -- whoever asked for the link,
+    through whichever API, whatever the sender's flag, whatever is toggled afterwards"""
+    th, to = r["th"], r["to"]
+    fails = []
+    both = th is not None and to is not None
+    restricted = _restricted(th, to) if both else True
+
+    def fail(clause, detail, **sig):
+        fails.append({"clause": clause, "detail": f"{detail}  [via={r['via']} out={th} inp={to} case={case}]",
+                      "signature": {"clause": clause, "trigger": "gate", "via": r["via"], "restricted": restricted, **sig}})
+
+    wit = _unsound_witness([a for a in r["adm"] if a["h"] is not None and a["o"] is not None], th, to) if both else None
+    accepted_strict = False  # is there a link that a strict receiver accepted
+    for t in r["trace"]:
+        res = t.get("res")
+        if t["op"] in ("link", "push") and (str(res).startswith("EXC") or str(res).endswith("+dangling")):
+            fail("crash", f"{t['op']} gave {res}", where=t["op"])
+            return fails
+        if t["op"] == "link":
+            if res == "REC":
+                fail("total", "the comparison did not come back while linking", exc="REC",
+                     old_union=any(s[0] == "uo" for x in (th, to) if x for s in subterms(x)))
+                return fails
+            if t.get("again") and accepted_strict and res == "ok":
+                continue
+            if t.get("again") and t["linked"] is True and r["mech"] in ("oc", "ic") and not accepted_strict:
+                continue  # connect() on an existing connection is a no-op, nothing is accepted anew
+            if res == "ok":
+                accepted_strict = bool(both and t["sr"])
+                if accepted_strict and wit is not None:
+                    fail("unsound", f"link accepted (sender strict={t['ss']}, receiver strict={t['sr']}) although witness "
+                                    f"{wit[0]['v']} is admitted by the sending hint and rejected by the receiving hint",
+                         cause=wit[1], sender_strict=t["ss"])
+                    return fails
+            elif res == "receiver-rejects" and both and t["sr"]:
+                # the hint gate said yes, then the receiver refused the sender's current value
+                pa = r.get("pre_adm")
+                if pa and pa["h"] == "T":
+                    cause = (_unsound_witness([pa], th, to) or (None, "other"))[1]
+                    fail("unsound", f"value link passed the hint comparison (sender strict={t['ss']}), then the receiver "
+                                    f"refused the sender's value {pa['v']} which the sending hint admits",
+                         cause=cause, sender_strict=t["ss"], stage="link-push")
+                    return fails
+        elif t["op"] == "push":
+            if res == "receiver-rejects" and accepted_strict and t["h"] == "T":
+                cause = (_unsound_witness([{**t, "tg_o": None}], th, to) or (None, "other"))[1]
+                if wit is not None:
+                    cause = wit[1]
+                fail("unsound", f"a link accepted by a strict receiver refuses value {t['v']} that the sending hint admits",
+                     cause=cause, stage="push")
+                return fails
+    for a in r["adm"]:
+        if a["h"] not in (None, "T", "F") or a["o"] not in (None, "T", "F"):
+            fail("crash", f"valid_value raised on witness {a['v']}: {a['h']} / {a['o']}", where="valid_value")
+            break
+    return fails
 
 
 # ----------------------------------------------------------------------------- model side
@@ -874,11 +1568,15 @@ def model_input(case, impl=None):
         return list(case["lines"])
     if impl is None or impl.get("skip"):
         return []
+    if case["kind"] == "gate":
+        return gate_model_input(case, impl)
     h, o = " ".join(tok(impl["th"])), " ".join(tok(impl["to"]))
     s = impl["strict"]
     lines = ["cfg " + " ".join(map(str, impl["variant"])),
              f"cmp {h} {o}", f"cmp {h} {h}", f"cmp {o} {o}",
              f"conn {h} {o} {s}", f"conn {h} {o} 1", f"conn - {o} 1", f"recv {h} {o} {s}"]
+    for via, ph, po, ss, sr, _got in impl["matrix"]:
+        lines.append(f"gate {via} {h if ph else '-'} {o if po else '-'} {ss} {sr}")
     for a in impl["adm"]:
         v = " ".join(tok_val(a["v"]))
         lines.append(f"adm {h} {v}")
@@ -920,8 +1618,30 @@ def _facts(th, to):
     }
 
 
+def _unsound_witness(adm, th, to):
+    """first witness the sending hint admits and the receiving hint rejects, with a classification of why"""
+    for a in adm:
+        if a["h"] == "T" and a["o"] == "F":
+            if a["tg_o"] is True:
+                cause = "isinstance-shortcut"
+            elif _unclean_literal(to):
+                cause = "typeguard-literal-index"
+            elif any(x == y and type(x) is not type(y) for x in _lits(th) for y in _lits(to)):
+                cause = "literal-bool-int"
+            elif any(s == ["tf", []] for s in subterms(to)):
+                cause = "empty-tuple"
+            else:
+                cause = "other"
+            return a, cause
+    return None
+
+
 def oracle(case, r):
-    if case["kind"] != "pair" or r.get("skip"):
+    if r.get("skip"):
+        return []
+    if case["kind"] == "gate":
+        return gate_oracle(case, r)
+    if case["kind"] != "pair":
         return []
     th, to = r["th"], r["to"]
     fails = []
@@ -943,22 +1663,10 @@ def oracle(case, r):
             fail("not-reflexive", f"cmp({name},{name}) is False")
             break
     # (c) soundness of an accepted pair on the witness pool
-    if r_ho == "T":
-        for a in r["adm"]:
-            if a["h"] == "T" and a["o"] == "F":
-                if a["tg_o"] is True:
-                    cause = "isinstance-shortcut"
-                elif _unclean_literal(to):
-                    cause = "typeguard-literal-index"
-                elif any(x == y and type(x) is not type(y) for x in _lits(th) for y in _lits(to)):
-                    cause = "literal-bool-int"
-                elif any(s == ["tf", []] for s in subterms(to)):
-                    cause = "empty-tuple"
-                else:
-                    cause = "other"
-                fail("unsound", f"accepted, but witness {a['v']} is admitted by the output hint and rejected by the "
-                                f"input hint", cause=cause)
-                break
+    wit = _unsound_witness(r["adm"], th, to)
+    if r_ho == "T" and wit is not None:
+        fail("unsound", f"accepted, but witness {wit[0]['v']} is admitted by the output hint and rejected by the "
+                        f"input hint", cause=wit[1])
     # (d) valid_value itself must answer
     for a in r["adm"]:
         if a["h"] not in ("T", "F") or a["o"] not in ("T", "F"):
@@ -974,6 +1682,23 @@ def oracle(case, r):
             break
     if r["recv"] != (exp if strict else "ok"):
         fail("connect-consults-comparison", f"value_receiver: got {r['recv']}, comparison says {r_ho}, strict={strict}")
+    # (f) the acceptance gate, for every initiator x sender flag x receiver flag x hint presence: a link between two
+    # hinted channels whose RECEIVING side is strict is accepted only if sound (whatever the sender's flag and
+    # whoever asked); the gate neither crashes nor leaves a refused link behind
+    for via, ph, po, ss, sr, got in r.get("matrix", []):
+        where = f"via={via} sender(hint={ph}, strict={ss}) receiver(hint={po}, strict={sr})"
+        if got not in ("ok", "refused", "REC"):
+            fail("crash", f"the gate raised / misbehaved: {got} [{where}]", where="gate", via=via)
+            break
+        if ph and po and sr and got == "ok" and wit is not None and r_ho != "T":
+            fail("unsound", f"link accepted [{where}] although witness {wit[0]['v']} is admitted by the sending hint and "
+                            f"rejected by the receiving hint", cause=wit[1], trigger="gate", via=via, sender_strict=ss)
+            break
+        need = exp if (ph and po and sr) else "ok"
+        if got != need:
+            fail("connect-consults-comparison", f"gate [{where}]: got {got}, expected {need} (comparison says {r_ho})",
+                 trigger="gate", via=via, sender_strict=ss, receiver_strict=sr, hinted=[ph, po])
+            break
     return fails
 
 
@@ -1013,6 +1738,23 @@ def _shrinks(t):
 
 
 def shrink_candidates(case):
+    if case["kind"] == "gate":
+        for i in range(len(case.get("post", []))):
+            yield {**case, "post": case["post"][:i] + case["post"][i + 1:]}
+        if case.get("pre") is not None:
+            yield {**case, "pre": None}
+        if case.get("lax") != "chan":
+            yield {**case, "lax": "chan"}
+        if GATE_VIAS[case["via"]] != case["via"]:
+            yield {**case, "via": GATE_VIAS[case["via"]]}
+        for k in ("h", "o"):
+            if case.get(k) is not None:
+                for t in _shrinks(case[k]):
+                    if t[0] != "N":
+                        yield {**case, k: t}
+        if not case.get("ss", 1):
+            yield {**case, "ss": 1}
+        return
     if case["kind"] != "pair":
         return
     for h in _shrinks(case["h"]):
